@@ -169,9 +169,84 @@ var c16Machine = &vlib.Check{
 	},
 }
 
+// c16FailingDoc: one method whose responses are a mix of exportable ones and ones the OpenAPI converter refuses in
+// different ways (a schema it panics on, the same code with an empty and a non-empty body).  Which refusal is reported
+// must not change from call to call.
+func c16FailingDoc(r vlib.Rnd) string {
+	var sb strings.Builder
+	sb.WriteString("JSIGHT 0.3\n\n")
+	nm := 1 + r.Intn(2)
+	for m := 0; m < nm; m++ {
+		fmt.Fprintf(&sb, "%s /p%d\n", vlib.Pick(r, []string{"GET", "POST", "PUT"}), m)
+		codes := []int{200, 201, 204, 400, 404, 409, 500, 503}
+		n := 2 + r.Intn(4)
+		for i := 0; i < n; i++ {
+			k := r.Intn(len(codes))
+			code := codes[k]
+			codes = append(codes[:k], codes[k+1:]...)
+			switch r.Intn(6) {
+			case 0:
+				fmt.Fprintf(&sb, "  %d any\n", code)
+			case 1:
+				fmt.Fprintf(&sb, "  %d\n    {\"x\": 1}\n", code)
+			case 2, 3:
+				fmt.Fprintf(&sb, "  %d\n    1 // {or: [{type: \"string\"}, {type: \"enum\", enum: [1,2,3]}]}\n", code)
+			case 4:
+				fmt.Fprintf(&sb, "  %d empty\n  %d any\n", code, code)
+			default:
+				fmt.Fprintf(&sb, "  %d any\n  %d empty\n", code, code)
+			}
+		}
+		sb.WriteString("\n")
+	}
+	return sb.String()
+}
+
+// c16FailingOracle runs the (length <= 6) history on several fresh builds: the choice between two refusals is made by a
+// map iteration, one history alone may not show it.
+func c16FailingOracle(c *vlib.Case) *vlib.Violation {
+	for i := 0; i < 10; i++ {
+		if v := c16Oracle(c); v != nil {
+			return v
+		}
+	}
+	return nil
+}
+
+var c16Failing = &vlib.Check{
+	Prop: "C16", Name: "failing-exports", Quick: 300, Thorough: 20000,
+	Oracle: c16FailingOracle,
+	Gen: func(t *rapid.T) *vlib.Case {
+		r := vlib.RapidRnd{T: t}
+		ops := []string{"ToOpenAPIJson", "ToOpenAPIJsonIndent", "ToOpenAPIJson", "ToOpenAPIJsonIndent", "ToOpenAPIJson", "ToOpenAPIJsonIndent"}
+		if vlib.Chance(r, 1, 3) {
+			ops = []string{"ToOpenAPIJson", "ToJson", "ToOpenAPIJson", "ToOpenAPIJson", "Title", "ToOpenAPIJson"}
+		}
+		return &vlib.Case{Project: vlib.SingleFile([]byte(c16FailingDoc(r))), Ops: ops}
+	},
+	Classify: func(c *vlib.Case) (bool, []string) {
+		b := vlib.Build(c.Project)
+		defer b.Close()
+		if !b.Out.OK() {
+			return false, []string{"rejected"}
+		}
+		src := string(c.Project.RootBytes())
+		kinds := 0
+		if strings.Contains(src, "enum: [1,2,3]") {
+			kinds++
+		}
+		if strings.Contains(src, " empty\n") {
+			kinds++
+		}
+		first := c16Call(b, "ToOpenAPIJson")
+		cls := []string{"accepted", "first-export:" + kindOf(first), fmt.Sprintf("refusal-kinds-%d", kinds)}
+		return kindOf(first) == "error" && kinds >= 2, cls
+	},
+}
+
 var c16Corpus = &vlib.Check{Prop: "C16", Name: "corpus", Oracle: c16Oracle, Classify: c16Classify}
 
-func init() { vlib.Register(c16Machine, c16Corpus) }
+func init() { vlib.Register(c16Machine, c16Corpus, c16Failing) }
 
 func TestC16(t *testing.T) {
 	if vlib.Shard() == 0 {
@@ -196,4 +271,5 @@ func TestC16(t *testing.T) {
 		})
 	}
 	t.Run("histories", c16Machine.Run)
+	t.Run("failing-exports", c16Failing.Run)
 }
